@@ -570,7 +570,12 @@ func r20_4(c *Ctx, rule string) {
 		ms, isMS := buf.(*ssa.MakeSlice)
 		okLen := false
 		if isMS {
-			if _, isSum := eng.SumWithConst(ms.Len, 4); isSum {
+			ln := ms.Len
+			// (the sum may be computed by a one-line helper: frameSize(n) = n + 4)
+			if rs := eng.ResolveAll(ln); len(rs) == 1 {
+				ln = rs[0]
+			}
+			if _, isSum := eng.SumWithConst(eng.Canon(ln), 4); isSum {
 				okLen = true
 			}
 		}
